@@ -210,18 +210,39 @@ pub fn run_real(ctx: &Ctx, report: &mut Report) {
             .map(|(u, t)| {
                 let (u, t, q) = (*u, *t, q.clone());
                 s.spawn(move || {
-                    let udp = match UdpSocket::bind("127.0.0.1:0") {
-                        Ok(s) => s,
-                        Err(e) => return (u, t, Err(format!("bind: {e}"))),
-                    };
-                    let addr: SocketAddr = udp.local_addr().unwrap();
-                    let tcp = if t == Tcp::Refused {
-                        None
-                    } else {
+                    // one port number free for UDP *and* TCP: the kernel hands out a free
+                    // UDP port, the same TCP port may be taken (another check's server, an
+                    // outgoing connection) - try again; not finding one is machinery
+                    let mut bound: Option<(UdpSocket, SocketAddr, Option<TcpListener>)> = None;
+                    let mut last = String::new();
+                    for _ in 0..200 {
+                        let udp = match UdpSocket::bind("127.0.0.1:0") {
+                            Ok(s) => s,
+                            Err(e) => {
+                                last = format!("udp bind: {e}");
+                                continue;
+                            }
+                        };
+                        let addr: SocketAddr = match udp.local_addr() {
+                            Ok(a) => a,
+                            Err(e) => {
+                                last = format!("local_addr: {e}");
+                                continue;
+                            }
+                        };
+                        // (for the `Refused` behaviour the TCP port must be free as well, or
+                        // somebody else's listener would answer)
                         match TcpListener::bind(addr) {
-                            Ok(l) => Some(l),
-                            Err(e) => return (u, t, Err(format!("tcp bind: {e}"))),
+                            Ok(l) => {
+                                bound = Some((udp, addr, if t == Tcp::Refused { None } else { Some(l) }));
+                                break;
+                            }
+                            Err(e) => last = format!("tcp bind {addr}: {e}"),
                         }
+                    }
+                    let Some((udp, addr, tcp)) = bound else {
+                        eprintln!("C08: machinery error: no loopback port free for both UDP and TCP after 200 attempts ({last})");
+                        std::process::exit(2);
                     };
                     let slow = u == Udp::Silent || t == Tcp::Silent;
                     let deadline = Duration::from_secs(if slow { 13 } else { 4 });
